@@ -21,7 +21,9 @@ ID = "C08"
 LEVEL = "exploration"
 RULE = ("2-4 threads x 2-3 requests each on one ConnectionPool; families F1 (limits >= demand, no expiry: any failure is "
         "new), F2 (max_connections 1-2, max_keepalive 0-2, keep-alive expiry, same and different origins: eviction and "
-        "expiry races), F3 (one shared HTTP/2 connection, MAX_CONCURRENT_STREAMS 1-100); schedules: uniform random switching "
+        "expiry races), F3 (one shared HTTP/2 connection, MAX_CONCURRENT_STREAMS 1-100), F4 (max_connections 1, some callers "
+        "with a pool timeout and some without, and a scheduler that lets a timed wait expire while the other threads are "
+        "mid-step: timeout-versus-hand-over races; a PoolTimeout after the time has passed is the only failure allowed); schedules: uniform random switching "
         "p in {0.02,0.1,0.3} and PCT depth 1-3, each with line-level pre-emption; distinct+non-trivial = distinct schedule "
         "fingerprint (sequence of thread choices at switch points) with >= 1 context switch inside httpcore code")
 ASSUMPTIONS = ["shim Lock/Event/Semaphore model threading's semantics; pre-emption only between lines of httpcore's sync code "
@@ -31,7 +33,7 @@ REQUIRED = ["schedules", "yield_points", "line_events", "context_switches", "req
 
 
 def gen_thread_spec(r: random.Random) -> dict:
-    fam = r.choice(["F1", "F2", "F2", "F3"])
+    fam = r.choice(["F1", "F2", "F2", "F3", "F4"])
     n_threads = r.randint(2, 4)
     base = dict(n_callers=n_threads, reqs=r.randint(2, 3), proxy=None, fault_ops=[], latency=r.choice(["zero", "zero", "mixed"]),
                 think=r.choice([0.0, 0.0, 0.05]), pool_timeout=None, resp_delay=r.choice([0.0, 0.0, 0.01]),
@@ -42,6 +44,14 @@ def gen_thread_spec(r: random.Random) -> dict:
     elif fam == "F2":
         base.update(proto=r.choice(["h1", "h1", "h1tls"]), n_origins=r.choice([1, 2, 3]), max_connections=r.choice([1, 2]),
                     max_keepalive=r.choice([0, 1, 2, None]), keepalive_expiry=r.choice([None, 0.0, 0.02, 1.0]))
+    elif fam == "F4":
+        # some callers queue with a pool timeout, others without; the scheduler may let a timeout expire while the
+        # other threads are in the middle of a step (Sched.p_jump): timeout-versus-hand-over races
+        n = base["n_callers"] = r.randint(3, 4)
+        k = r.randint(1, n - 1)
+        base.update(proto=r.choice(["h1", "h1tls"]), n_origins=r.choice([1, 2, 2]), max_connections=1,
+                    max_keepalive=r.choice([1, None]), keepalive_expiry=None, pool_timeout=r.choice([0.001, 0.02, 0.3]),
+                    pool_timeout_callers=sorted(r.sample(range(n), k)), resp_delay=r.choice([0.01, 0.05]))
     else:
         base.update(proto="h2", n_origins=1, max_connections=r.choice([1, 2]), max_keepalive=None, keepalive_expiry=None,
                     h2_settings={"3": r.choice([1, 2, 100])})
@@ -55,7 +65,8 @@ def gen_thread_spec(r: random.Random) -> dict:
 def run_case(case):
     viol = []
     cnt = {k: 0 for k in ["schedules", "yield_points", "line_events", "context_switches", "requests_ok", "requests_failed",
-                          "oracle_limit_evals", "lock_contended", "event_blocked", "sem_blocked", "deadlocks"]}
+                          "oracle_limit_evals", "lock_contended", "event_blocked", "sem_blocked", "deadlocks", "pool_timeouts",
+                          "timeouts_under_load"]}
     sigs = set()
     sample = {}
 
@@ -76,12 +87,14 @@ def run_case(case):
                 return {f"t{c}": (lambda c=c: run_sync(wl.caller(c))) for c in range(spec["n_callers"])}
 
             s, outs, shim = run_threaded(setup, seed=sched["seed"] ^ spec["seed"], strategy=sched["strategy"], p=sched.get("p", 0.1),
-                                         depth=sched.get("depth", 2), lines=True, est_steps=3000)
+                                         depth=sched.get("depth", 2), lines=True, est_steps=3000,
+                                         p_jump=0.01 if spec["family"] == "F4" else 0.0)
             wl, ob = box["wl"], box["ob"]
             cnt["schedules"] += 1
             cnt["yield_points"] += s.steps
             cnt["line_events"] += s.line_events
             cnt["context_switches"] += s.switches
+            cnt["timeouts_under_load"] += s.jumps
             cnt["oracle_limit_evals"] += ob.evals
             cnt["lock_contended"] += shim.stats["lock_contended"]
             cnt["event_blocked"] += shim.stats["event_blocked"]
@@ -102,6 +115,9 @@ def run_case(case):
             for rec in wl.records:
                 if rec.get("end") == "ok":
                     cnt["requests_ok"] += 1
+                elif (type(rec.get("exc")).__name__ == "PoolTimeout" and rec.get("pool_timeout") is not None
+                      and rec.get("t1", 0) - rec["t0"] >= rec["pool_timeout"] - 1e-9):
+                    cnt["pool_timeouts"] += 1   # asked for, and the time had passed
                 else:
                     cnt["requests_failed"] += 1
                     exc = rec.get("exc")
